@@ -435,6 +435,7 @@ func main() {
 	if len(rejected)*3 > len(cases) {
 		core.Fatalf("%d of %d position shapes are rejected by the parser", len(rejected), len(cases))
 	}
+	scannerHistories(tier)
 	run.Exhaustive = true
 	run.Finish()
 }
